@@ -47,9 +47,12 @@ WRITES = [
 FUNS = "{E} mo; void wr({E} &r) {{ r = 1; }}\nvoid wr2({E} &r) {{ wr(r); }}\n"
 
 
-def model(gdecl="", ldecl="", params=None, select=None, assign=None, system="P = T(); system P;", elem="int"):
+def model(gdecl="", ldecl="", params=None, select=None, assign=None, system="P = T(); system P;", elem="int", unused=False):
     t = X.template("T", params=params, decl=ldecl, locations=[X.location("id0", "L0"), X.location("id1", "L1")], init="id0",
                    transitions=[X.transition("id0", "id1", select=select, assign=assign)])
+    if unused:      # the template with the write is defined and never instantiated
+        u = X.template("U", locations=[X.location("id7", "M0")], init="id7")
+        return X.nta(TYPES + FUNS.format(E=elem) + gdecl, [t, u], "system U;")
     return X.nta(TYPES + FUNS.format(E=elem) + gdecl, [t], system)
 
 
@@ -65,6 +68,8 @@ def cells():
                 # constness sources that admit this shape
                 yield ("const-global:" + key, c, model(gdecl=d, assign=stmt, elem=el))
                 yield ("const-template-local:" + key, c, model(ldecl=d, assign=stmt, elem=el))
+                yield ("const-template-local-of-unused-template:" + key, c, model(ldecl=d, assign=stmt, elem=el, unused=True))
+                yield ("const-global-written-in-unused-template:" + key, c, model(gdecl=d, assign=stmt, elem=el, unused=True))
                 yield ("const-in-function-local:" + key, c, model(gdecl="void fn() { %s %s; }" % (d, stmt), assign="fn()", elem=el))
                 if sid == "second-declarator-after-quantifier" or sid == "array-size-with-quantifier":
                     continue        # (declaration lists and computed sizes are not parameter syntax)
